@@ -242,7 +242,7 @@ def add_user(db, r, flip=False):
                    attributes=TAG if r["tag"] else None)
 
 
-def build_db(cls, records, via_text=True):
+def build_db(cls, records, via_text=True, block=None):
     """a fresh real db of class cls holding exactly the model records.
 
     via_text: native rows come in through load_annotations on generated GFF3 / GenBank text; otherwise through the
@@ -261,7 +261,8 @@ def build_db(cls, records, via_text=True):
                 path = _tmp(".gff3")
                 with open(path, "w") as f:
                     f.write(text)
-                db = load_annotations(path=path)
+                # block: the number of text lines handed to the parser at a time; rows of one feature may straddle blocks
+                db = load_annotations(path=path) if block is None else load_annotations(path=path, lines_per_block=block)
                 os.remove(path)
             else:
                 from cogent3.parse.gff import gff_parser
@@ -578,15 +579,25 @@ def check_text(acc, line):
             all_shapes = shapes(line) + (overlap_shapes(line) if cls == "Gff" else [])
             records = [rec(NATIVE[cls], "s1", "gene", f"n{i}" if cls == "Gff" else "n1", sh, strand, i % 2 == 1)
                        for i, sh in enumerate(all_shapes)]
-            acc.case(("load", cls, strand))
-            r = call(lambda: all_rows(build_db(cls, records)))
-            if r != ("ok", model_rows(records)):
-                bad = None
-                if r[0] == "ok":
-                    want = model_rows(records)
-                    bad = [(g, w) for g, w in zip(r[1], want) if g != w][:2]
-                acc.fail(f"load_annotations({cls}): " + (f"raised {r[1]}" if r[0] != "ok" else "records differ from the text") + f" [strand {strand}]",
-                         {"part": "text", "line": line, "cls": cls, "strand": strand}, {"first differences": str(bad)[:600]})
+            for block in ((None, 1, 2, 3, 5) if cls == "Gff" else (None,)):
+                acc.case(("load", cls, strand, block))
+                r = call(lambda: all_rows(build_db(cls, records, block=block)))
+                if r != ("ok", model_rows(records)):
+                    bad = None
+                    if r[0] == "ok":
+                        want = model_rows(records)
+                        bad = [(g, w) for g, w in zip(r[1], want) if g != w][:2]
+                    how = "" if block is None else "; read in blocks of a few lines"
+                    acc.fail(f"load_annotations({cls}): " + (f"raised {r[1]}" if r[0] != "ok" else "records differ from the text") + f" [strand {strand}{how}]",
+                             {"part": "text", "line": line, "cls": cls, "strand": strand, "lines_per_block": block}, {"first differences": str(bad)[:600]})
+                if r[0] == "ok" and block is not None:
+                    # the coordinate columns the window queries use
+                    db = build_db(cls, records, block=block)
+                    rows = sorted((x["name"], int(x["start"]), int(x["stop"])) for x in db.db.execute("select name, start, stop from gff").fetchall())
+                    want_cols = sorted((x["name"], min(a for a, b in x["spans"]), max(b for a, b in x["spans"])) for x in records)
+                    if rows != want_cols:
+                        acc.fail(f"load_annotations(Gff): start / stop columns differ from the extent of the spans [strand {strand}; read in blocks of a few lines]",
+                                 {"part": "text", "line": line, "cls": cls, "strand": strand, "lines_per_block": block}, {"got": str(rows)[:300], "want": str(want_cols)[:300]})
     acc.sample({"line": line, "shapes": len(shapes(line)), "spellings": "GFF3 rows; GenBank a..b / a / complement / join / <,>"}, "text")
 
 
